@@ -7,6 +7,7 @@ import signal
 import threading
 
 SEP1, SEP2, SEP4 = '\x01', '\x02', '\x04'
+SKIPPED = {}        # helper-level tie / shortcut -> why it was skipped (for the evidence)
 MODULUS = 2147483647
 
 
@@ -233,10 +234,10 @@ def f_lower(s):
     return s.lower()
 
 
-@guarded
-def f_front(s):
-    '''MIP.cards(blocks, skipcomments=True) + Card.content on a text held in
-    memory (MIP.__init__ = read the file + get_block_positions).'''
+FRONT_VIA_FILE = [None]     # None = not probed yet
+
+
+def _front_memory(s):
     from MIP.mip.main import MIP
     from MIP.mip.blocks import get_block_positions
     parser = object.__new__(MIP)
@@ -247,8 +248,7 @@ def f_front(s):
                       for b in 'csd'])
 
 
-@guarded
-def f_front_file(s):
+def _front_file(s):
     import impl
     from MIP.mip.main import MIP
     with impl.scratch_dir() as tmp:
@@ -258,6 +258,34 @@ def f_front_file(s):
         return ser_list2([[c.content() for c in
                            parser.cards(blocks=b, skipcomments=True)]
                           for b in 'csd'])
+
+
+def front_in_memory():
+    '''The in-memory route fills two attributes of the MIP object by hand
+    (private state): it is used only while it gives what MIP(file) gives on a
+    probe deck; otherwise every call goes through a scratch file.'''
+    if FRONT_VIA_FILE[0] is None:
+        probe = 't\n1 0 -1 $ x\n     imp:n=1\n\n1 so 5\n\nnps 1\n'
+        try:
+            FRONT_VIA_FILE[0] = _front_memory(probe) != _front_file(probe)
+        except Exception:       # pylint: disable=broad-except
+            FRONT_VIA_FILE[0] = True
+        if FRONT_VIA_FILE[0]:
+            SKIPPED['front (in memory)'] = ('attributes of the MIP object not as '
+                                            'expected: every call goes through a file')
+    return not FRONT_VIA_FILE[0]
+
+
+@guarded
+def f_front(s):
+    '''MIP.cards(blocks, skipcomments=True) + Card.content on a text (MIP.__init__
+    = read the file + get_block_positions).'''
+    return _front_memory(s) if front_in_memory() else _front_file(s)
+
+
+@guarded
+def f_front_file(s):
+    return _front_file(s)
 
 
 def f_front_all(s):
@@ -321,6 +349,18 @@ def f_expand(tokens, expected=None):
     return ser_list(out) + SEP2 + str(consumed)
 
 
+def f_to_float_accepts(s):
+    '''Whether MIP.mip.datacard.to_float reads the token: 'A' or 'N'
+    (ValueError). Public behaviour only, used when the spy of f_to_float is
+    not reached any more.'''
+    from MIP.mip import datacard
+    try:
+        datacard.to_float(s)
+    except ValueError:
+        return 'N'
+    return 'A'
+
+
 FUNS = {
     0: ('is_comment', f_is_comment), 1: ('has5', f_has5),
     2: ('amp_cont', f_amp_cont), 3: ('expand_tabs', f_expand_tabs),
@@ -333,7 +373,7 @@ FUNS = {
     16: ('nonvoid_split', f_nonvoid), 17: ('likebut_split', f_likebut),
     18: ('opt_tokens', f_opt_tokens), 19: ('lower', f_lower),
     20: ('front', f_front), 21: ('front_all', f_front_all),
-    22: ('to_float', f_to_float),
+    22: ('to_float', f_to_float), 23: ('to_float_accepts', f_to_float_accepts),
 }
 FUNS = {fid: (name, limited(fun)) for fid, (name, fun) in FUNS.items()}
 FID = {name: fid for fid, (name, _) in FUNS.items()}
@@ -357,12 +397,47 @@ REQUIRES = {
 }
 
 
+# observers that reach into the implementation through a hook (a captured
+# method, a shadowed global): usable only while a probe call still works
+PROBES = {
+    'opt_tokens': ('imp:n=1 u=2', ser_list(['imp:n', '1', 'u', '2'])),
+    'to_float': ('1.5d3', 'X1.5e3'),
+}
+_AVAILABLE = {}
+
+
 def available(name):
+    '''False when a module-level name the observer needs is gone or its hook
+    is no longer reached (a rewrite renamed / inlined a private helper): the
+    helper-level tie is then skipped and recorded; the ties through the public
+    functions (cell_split, get_cards, front, expand_data_card, conversions)
+    still run.'''
+    if name in _AVAILABLE:
+        return _AVAILABLE[name]
     import importlib
+    ok = True
     for mod, attr in REQUIRES.get(name, []):
-        if not hasattr(importlib.import_module(mod), attr):
-            return False
-    return True
+        try:
+            if not hasattr(importlib.import_module(mod), attr):
+                ok = False
+                SKIPPED[name] = f'helper {mod}.{attr} not present'
+        except Exception as exc:        # pylint: disable=broad-except
+            ok = False
+            SKIPPED[name] = f'module {mod} not importable: {exc!r}'
+    if ok and name in PROBES:
+        inp, expected = PROBES[name]
+        try:
+            got = FUNS[FID[name]][1](inp)
+        except Exception as exc:        # pylint: disable=broad-except
+            got = exc
+        # the probe only decides whether the HOOK still works; a changed but
+        # well-formed answer is left to the tie
+        if isinstance(got, Exception) or not isinstance(got, str) \
+                or (name == 'to_float' and got[:1] not in ('F', 'X', 'N')):
+            ok = False
+            SKIPPED[name] = f'hook of the observer not reached any more ({got!r})'
+    _AVAILABLE[name] = ok
+    return ok
 
 
 def hstr(s, h):
